@@ -34,6 +34,8 @@ pub struct RemoteSender {
     remote_id: Uuid,
     node: Text,
     pub lane: String,
+    /// Distinguishes successive registrations of one remote ID.
+    registration: u64,
 }
 
 impl RemoteSender {
@@ -49,7 +51,18 @@ impl RemoteSender {
             remote_id,
             node,
             lane: Default::default(),
+            registration: 0,
         }
+    }
+
+    /// Tag the sender with the registration (of its remote ID) that it belongs to.
+    pub fn for_registration(mut self, registration: u64) -> Self {
+        self.registration = registration;
+        self
+    }
+
+    pub fn registration(&self) -> u64 {
+        self.registration
     }
 
     pub fn remote_id(&self) -> Uuid {
